@@ -3,7 +3,10 @@
 (* every known metadata key with payload variant v; expected result: unchanged values *)
 EXTENDS Integers, Sequences, TLC, Json
 CONSTANTS MaxLen, Variants
-Steps == {"write_read", "export", "compress", "repack", "text"}
+\* "rewrite": a second writer session (append mode) stores the next payload variant
+\* over the existing keys (values of other types included); expected afterwards:
+\* the values of that variant, as if they had been written to a new file
+Steps == {"write_read", "export", "compress", "repack", "text", "rewrite"}
 VARIABLES pipe, v
 Init == /\ pipe \in UNION {[1..k -> Steps] : k \in 1..MaxLen}
         /\ v \in Variants
